@@ -105,9 +105,10 @@ CHECKS.update({
         text='Symmetry, unit diagonal, range (0,1], light = L2 for M = T^2 (symmetric T), product = Lpq(q,q), row-locality and the alias table '
              '(regenerated from kernel_from_str) are proved in Lean at R for all dimensions and points, for the same definitions the driver runs '
              'at Float; these are compared entry-wise with the real kernels and every alias under a computed rounding allowance. Positive '
-             'semi-definiteness is NOT proved (2-point case only; C05_psd stays a stated Prop) and is checked numerically.',
+             'semi-definiteness for 0<q<=p<=2 is proved in full (C05_psd_holds: Schoenberg via the Bernstein representation of r^a, power series '
+             'and the Schur product theorem; any transform, dimension and number of points) and also checked numerically on the real matrices.',
         note=TB + 'Exact real arithmetic; rounding absorbed by an interval-image allowance per entry (cdist expansion mode above 25 rows, M-form of '
-             'the light kernel); PSD for 0<q<=p<=2 (Schoenberg) unproved; CPU only.',
+             'the light kernel); CPU only.',
         technique='Lean 4 + Mathlib scalar-generic model (R proofs / Float driver), alias table regenerated by the AST translator, exhaustive alias and guard correspondence',
         ref='DESIGN.md §6 C05'),
     'C07': dict(
